@@ -65,4 +65,37 @@ def getAttr (t : Tbl) (s : Store) (item : String) : GetRes :=
   | Option.none => if t.any (fun r => (String.ofList (r.1.toList.map fun c => if c == '-' then '_' else c)) == item) then .none
                    else .attributeError
 
+/-- what `e.xml_x = value` does (xmlelement.py:76-100), as a decision on five facts -/
+inductive ShortcutAct
+  | attributeError      -- not a possible child name / no such class
+  | replace | add       -- value is an instance of the child class: replace the found child / add it
+  | remove | nothing    -- value is None: remove the found child / nothing to do
+  | setValue | addNew   -- any other value: set the found child's value / add a new child built from it
+  deriving DecidableEq, Repr
+
+def childShortcut (possible classExists found isInstance isNone : Bool) : ShortcutAct :=
+  if !possible || !classExists then .attributeError
+  else if isInstance then (if found then .replace else .add)
+  else if isNone then (if found then .remove else .nothing)
+  else (if found then .setValue else .addNew)
+
+/-- `name.replace('xml_', '')` (all occurrences, left to right) -/
+def removeXml : List Char → List Char
+  | [] => []
+  | 'x' :: 'm' :: 'l' :: '_' :: r => removeXml r
+  | c :: r => c :: removeXml r
+
+def shortcutChildName (key : String) : String :=
+  normKey (String.ofList (removeXml key.toList))
+
+def capFirst (s : List Char) : List Char :=
+  match s with
+  | [] => []
+  | c :: r => c.toUpper :: r
+
+/-- 'XML' + ''.join(cap_first(p) for p in child_name.split('_')) -/
+def shortcutClassName (key : String) : String :=
+  let cn := removeXml key.toList
+  "XML" ++ String.ofList ((Values.splitOnChar '_' cn).flatMap capFirst)
+
 end Element
